@@ -202,6 +202,11 @@ def mk_request(I: Interp, kind: str) -> tuple[VObj, VBytes]:
                    I.fresh_bool("suppress", inp=True))
     elif kind == "rdbi":
         q = I.call(S.ReadDataByIdentifierRequest, I.fresh_int("did", inp=True))
+    elif kind.startswith("rdbi-list"):
+        # several identifiers in one request (2 or 3)
+        n = int(kind[-1])
+        q = I.call(S.ReadDataByIdentifierRequest,
+                   VList([I.fresh_int(f"did{j}", inp=True) for j in range(n)]))
     elif kind == "tp":
         q = I.call(S.TesterPresentRequest, I.fresh_bool("suppress", inp=True))
     elif kind == "reset":
